@@ -146,7 +146,6 @@ func mkBlock(caseSeed int64, salt, h uint64, keys [][]byte) block {
 		return
 	}
 	b.sets, b.dels = writes(1 + r.Intn(6))
-	cpChains := map[uint64]bool{}
 	for i, n := 0, r.Intn(5); i < n; i++ {
 		var t tx
 		t.sets, t.dels = writes(1 + r.Intn(5))
@@ -158,20 +157,12 @@ func mkBlock(caseSeed int64, salt, h uint64, keys [][]byte) block {
 		case 3: // … with both
 			t.cps = append(t.cps, cp{chain: uint64(1 + r.Intn(2)), height: salt*8 + uint64(i), hash: crypto.Hash(be8(salt*8 + uint64(i)))})
 			t.dss = append(t.dss, dsig{addr: dsAddrs[r.Intn(len(dsAddrs))], height: 1 + uint64(r.Intn(int(h)))})
-		case 4: // committee reset
-			// (not for a chain an earlier transaction of this block has indexed a checkpoint for: iteration
-			// through the block store's indexer transaction does not show its pending writes, so
-			// DeleteCheckpointsForChain would miss that checkpoint — a read-semantics matter, not atomicity)
-			if c := uint64(1 + r.Intn(2)); r.Intn(3) == 0 && !cpChains[c] {
-				t.delChain = c
+		case 4: // committee reset (also of a chain an earlier transaction of this block indexed a checkpoint for)
+			if r.Intn(3) == 0 {
+				t.delChain = uint64(1 + r.Intn(2))
 			}
 		}
 		t.discard = r.Intn(5) == 0 // a failed transaction
-		if !t.discard {
-			for _, c := range t.cps {
-				cpChains[c.chain] = true
-			}
-		}
 		b.txs = append(b.txs, t)
 	}
 	return b
